@@ -413,3 +413,4 @@ not_reproduced()
 
 # level text addendum (cases added after the seeded-change rounds)
 LEVEL_TEXT = LEVEL_TEXT + ' Also: integer waveforms, the ranking step alone under a single-precision rounding model, every call repeated on the same array.'
+LEVEL_TEXT = LEVEL_TEXT + ' Round 6: a single waveform given as a 2-D (time, channel) array equals the batch of one.'
